@@ -53,6 +53,20 @@ def tofloat(v):
     return v
 
 
+def exc_origin(exc):
+    """'mdpax' if the deepest frame that belongs to either the code under test or the harness is in /repo,
+    'harness' if it is in /verif (then the exception is a harness bug, not an outcome of the code under test)."""
+    import traceback
+    last = None
+    for fr in traceback.extract_tb(exc.__traceback__):
+        fn = fr.filename
+        if "/mdpv/" in fn:
+            last = "harness"
+        elif "/mdpax/" in fn or fn.startswith("/repo/"):
+            last = "mdpax"
+    return last or "harness"
+
+
 class Obligations:
     def __init__(self, job, default_timeout_ms=60000):
         self.job = job
